@@ -1,0 +1,6 @@
+//go:build !verif
+
+package router
+
+func poolTrackGet(*Packet) {}
+func poolTrackPut(*Packet) {}
